@@ -74,15 +74,15 @@ def binding_controls():
     bad += 0 if ok else 1
     # 3. EM chain: two recorded runs (multiset / geometric, token / harmonic with epsilon) are accepted; the same runs with one cell
     #    moved by 0.01, with a thresholded cell resurrected, or judged with the wrong kernel weights are reported
-    multi = {"family": "multi", "V": 2, "r": 1, "eps": 0, "kw": [8, 4, 2, 1], "corpus": [[[0], [1, 0], [1]]],
+    multi = {"family": "multi", "V": 2, "eps": 0, "N": 2, "grams": [], "wins": [{"orient": "directional", "r": 1, "mix": 1, "kw": [8, 4, 2, 1]}], "corpus": [[[0], [1, 0], [1]]],
              "mats": [[[1667, 3334, 5001, 10001], [10001, 5001, 3334, 1667]], [[29877, 356021, 643980, 970123], [970123, 643980, 356021, 29877]],
                       [[5818, 328252, 671749, 994183], [994183, 671749, 328252, 5818]]]}
-    token = {"family": "token", "V": 2, "r": 2, "eps": 200000, "kw": [2, 1], "corpus": [[0, 1, 1, 0, 1]],
+    token = {"family": "token", "V": 2, "eps": 200000, "N": 2, "grams": [], "wins": [{"orient": "directional", "r": 2, "mix": 1, "kw": [2, 1]}], "corpus": [[0, 1, 1, 0, 1]],
              "mats": [[[0, 500001, 0, 625001], [1000001, 500001, 1000001, 375001]], [[0, 560001, 0, 835821], [1000001, 440000, 1000001, 0]],
                       [[0, 551804, 0, 1000001], [1000001, 448197, 1000001, 0]]]}
     c1 = json.loads(json.dumps(multi)); c1["mats"][2][0][1] += 10000
     c2 = json.loads(json.dumps(token)); c2["mats"][2][1][3] = 100001
-    c3 = json.loads(json.dumps(multi)); c3["kw"] = [1, 1, 1, 1]
+    c3 = json.loads(json.dumps(multi)); c3["wins"][0]["kw"] = [1, 1, 1, 1]
     r = trace_run("Trace_EMChain", [multi, token, c1, c2, c3], ["Verdict"])
     v = {int(p["verdict"]): p["bad"] for p in r.prints if "verdict" in p}
     ok = len(v) == 5 and not v[1] and not v[2] and bool(v[3]) and bool(v[4]) and bool(v[5])
